@@ -252,6 +252,25 @@ func init() {
 			c.Undecided("C16e: expected one SetEarliestEpochStart call in UpdateEarliestEpochstart, found %d", n)
 		}
 		c.RequireCallers("C16e", esK+"SetEarliestEpochStart", esK+"UpdateEarliestEpochstart", esK+"InitGenesis", "x/epochstorage.InitGenesis", esK+"SetEpochDetailsStart")
-		c.NotCovered("the arithmetic over histories of changes (that grids of consecutive parameter versions meet at an epoch start); governance validation of new parameter values; pruning of fixated versions")
+		c.Rule("C16g fixation history is trimmed per key: inside PushFixatedParams the only clean-up is CleanOlderFixatedParams for the key of the iteration it was computed in (the cut index is a position in that key's list), under fixated block < limit; the all-keys clean-up CleanAllOlderFixatedParams is called only by FixateParams on its latest-change-older-than-memory branch — a cut index of one key applied to another deletes versions that blocks inside the memory window still map through")
+		if pfp := c.Fn(esK + "PushFixatedParams"); pfp != nil {
+			sites := c.CallsByName(pfp, false, esK+"CleanOlderFixatedParams")
+			if len(sites) != 1 {
+				c.Fail("C16g/PushFixatedParams/trims-only-the-pushed-key", c.P.Pos(pfp.Pos()), "expected one per-key CleanOlderFixatedParams call in PushFixatedParams, found "+itoa(len(sites)))
+			}
+			for _, s := range sites {
+				a := ir.CallOf(s.Instr).Args
+				keyOK := len(a) == 4 && strings.HasPrefix(ir.Desc(a[2]), "next(range(") && strings.Contains(ir.Desc(a[2]), ".fixationRegistries") && strings.HasSuffix(ir.Desc(a[2]), "#1")
+				guardOK := ir.HasFact(ir.GuardFacts(s.Instr), ".FixationBlock < param#2)")
+				if keyOK && guardOK {
+					c.OK("C16g/PushFixatedParams/trims-only-the-pushed-key", c.P.InstrPos(s.Instr), "CleanOlderFixatedParams(ctx, this key, idx+1) under FixationBlock < limit")
+				} else {
+					c.Fail("C16g/PushFixatedParams/trims-only-the-pushed-key", c.P.InstrPos(s.Instr), "the clean-up in PushFixatedParams is not for the key being pushed under fixated block < limit: "+strings.Join(argDescs(ir.CallOf(s.Instr)), ", "))
+				}
+			}
+		}
+		c.RequireCallers("C16g", esK+"CleanAllOlderFixatedParams", esK+"FixateParams")
+		c.RequireCallers("C16g", esK+"CleanOlderFixatedParams", esK+"PushFixatedParams", esK+"CleanAllOlderFixatedParams")
+		c.NotCovered("the arithmetic over histories of changes (that grids of consecutive parameter versions meet at an epoch start); governance validation of new parameter values")
 	})
 }
